@@ -23,9 +23,12 @@ def models(ctx, th):
             ('MC_obs_latereply.cfg', 'SingleRequest'),
             # non-vacuity
             ('MC_neg_purge.cfg', 'NoLostWaiter'), ('MC_neg_cancelnowake.cfg', 'NoLostWaiter'),
-            ('MC_neg_cachefailed.cfg', 'FailedFlightNotCached')]
+            ('MC_neg_cachefailed.cfg', 'FailedFlightNotCached'),
+            # round 2: a flight that has been pending for longer than the client TTL is still joined
+            ('MC_quick_c09_exp.cfg', None), ('MC_neg_pendingexpires.cfg', 'NoLostWaiter')]
     if th:
-        jobs += [('MC_thorough_c09.cfg', None), ('MC_neg_stalecancel_sf.cfg', 'SingleFlight')]
+        jobs += [('MC_thorough_c09.cfg', None), ('MC_neg_stalecancel_sf.cfg', 'SingleFlight'),
+                 ('MC_neg_pendingexpires_sf.cfg', 'SingleFlight')]
     cc.model(ctx, jobs, workers=(6 if th else 2), par=(3 if th else 4), timeout=(3000 if th else 900))
 
 
@@ -33,18 +36,20 @@ def real(ctx, th):
     R = cc.Runner(ctx)
     try:
         n = 1500 if th else 200
-        with concurrent.futures.ThreadPoolExecutor(3) as ex:
+        with concurrent.futures.ThreadPoolExecutor(4) as ex:
             fs = ex.submit(cc.generate, ctx, 'Gen_stale.cfg', 'stale')      # exhaustive: every final situation with a
             fl = ex.submit(cc.generate, ctx, 'Gen_late.cfg', 'late')        # stale Cancel / a second request
             fo = ex.submit(cc.generate, ctx, 'Gen_optin.cfg', 'gen-optin', simulate=n)
-            stale, late, opt = fs.result(), fl.result(), fo.result()
+            # behaviours in which a call meets a flight that has been pending for longer than the client TTL
+            fx = ex.submit(cc.generate, ctx, 'Gen_pendexp.cfg', 'pendexp', simulate=n)
+            stale, late, opt, pendexp = fs.result(), fl.result(), fo.result(), fx.result()
         # failures, aborts, cancellations and waiters are what C09 is about
         def c09(c):
             calls = [s for s in c['steps'] if s['a'] == 'call']
             return any(s.get('fail') or 'wait' in s.get('slots', []) for s in calls) or any(s['a'] == 'ctx' for s in c['steps'])
         opt = [c for c in opt if c09(c)]
         if not th:
-            opt, late = opt[:60], late[:4]
+            opt, late, pendexp = opt[:60], late[:4], pendexp[:16]
         mr = None if th else 15
         plan = [
             (stale, 'stale', dict(store='lru', gate='1')),
@@ -53,6 +58,8 @@ def real(ctx, th):
             (late[:2], 'late', dict(store='adapter')),
             (opt, 'gen-optin', dict(store='lru', max_runs=mr)),
             (opt, 'gen-optin', dict(store='adapter', max_runs=mr)),
+            (pendexp, 'pendexp', dict(store='lru', max_runs=mr)),
+            (pendexp, 'pendexp', dict(store='adapter', max_runs=mr)),
         ]
         with concurrent.futures.ThreadPoolExecutor(4) as ex:
             list(ex.map(lambda p: R.scen(p[0], p[1], par=6, **p[2]), [p for p in plan if p[0]]))
